@@ -233,6 +233,9 @@ func (p *rigPlugin) PostReadRequest(ctx context.Context, r *protocol.Message, e 
 
 func (p *rigPlugin) PreCall(ctx context.Context, serviceName, methodName string, args interface{}) (interface{}, error) {
 	if a, ok := args.(*SArgs); ok && a.Reject == "precall" {
+		if a.ID%2 == 1 {
+			return nil, errRigPreCall // a rejection has no arguments to hand on
+		}
 		return args, errRigPreCall
 	}
 	return args, nil
